@@ -2016,6 +2016,13 @@ def backpressure():
         c = b.establish(direction=d, hold=9)
         b.stall(c).adv(3).adv(6).adv(1).unstall(c).adv(61)
         out.append(b.tag("stall").build())
+        # ... with writers of the application blocked all that time (they are not timed out: no write deadline)
+        for hold in (9, 3, 0):
+            b = Sb("bp-long-app-%s-%d" % (d, hold), [peer(hold=hold)])
+            b.start()
+            c = b.establish(direction=d, hold=hold or 90)
+            b.stall(c).write("p1", 1, [6] * 40).adv(1).write("p1", 1, [7]).adv(2).adv(6).adv(1).adv(90).unstall(c).adv(61)
+            out.append(b.tag("stall", "writer").build())
         for end in ("reset", "cease", "eof", "notif"):
             for who in ("app", "ka", "both"):
                 b = Sb("bp-%s-%s-%s" % (end, who, d), [peer(hold=9)])
